@@ -1,4 +1,5 @@
 import MoneroModel.Drv.Util
+import MoneroModel.Model.TxHash
 import MoneroModel.Model.TreeHash
 import MoneroModel.Spec.TreeHash
 import MoneroModel.Ref.Keccak
@@ -42,19 +43,27 @@ def stepC06 : Step
     | some (root :: extra) =>
       some (showOpt (TreeHash.treeHash K root extra), Hex.encode (Spec.TreeHash.treeSpec K (root :: extra)))
     | _ => some ("err", "err")
-  | ["c06_block", _, hdr, miner, txs] =>
+  | ["c06_block", blk, hdr, miner, txs] =>
     let hdrB := Hex.decode hdr
     let minerB := Hex.decode miner
+    -- model side: everything from the block bytes alone (codec model → header bytes, miner-tx id by the model of
+    -- `Transaction::hash`, listed hashes), then the model of tx_root / serialize_hashable / id
+    let m := match strict block (Hex.decode blk) with
+      | none => "err"
+      | some b =>
+        let hb := encHeader b.hdr
+        let mh := txHash K b.miner
+        match TreeHash.txRoot K mh b.hashes, TreeHash.serializeHashable K hb mh b.hashes,
+              TreeHash.blockId K correct202612 existing202612 hb mh b.hashes with
+        | some r, some bl, some i => s!"ok {Hex.encode r} {Hex.encode bl} {Hex.encode i}"
+        | _, _, _ => "panic"
+    -- spec side: the by-the-book formulas on the parts handed over by the generator
     match chunks32 (Hex.decode txs) with
     | some hs =>
-      if minerB.length ≠ 32 ∨ hdrB = [] then some ("err", "err") else
-      let m := match TreeHash.txRoot K minerB hs, TreeHash.serializeHashable K hdrB minerB hs,
-                     TreeHash.blockId K correct202612 existing202612 hdrB minerB hs with
-        | some r, some b, some i => s!"ok {Hex.encode r} {Hex.encode b} {Hex.encode i}"
-        | _, _, _ => "panic"
+      if minerB.length ≠ 32 ∨ hdrB = [] then some (m, "err") else
       let (r, b, i) := Spec.TreeHash.blockSpec K hdrB minerB hs
       some (m, s!"ok {Hex.encode r} {Hex.encode b} {Hex.encode i}")
-    | none => some ("err", "err")
+    | none => some (m, "err")
   | ["c06_cnt", n] =>
     match n.toNat? with
     | some k =>
